@@ -3,6 +3,7 @@ package c40_listing
 import (
 	"context"
 	"crypto/sha1"
+	"errors"
 	"fmt"
 	"os"
 	"path/filepath"
@@ -14,6 +15,7 @@ import (
 	"github.com/mutagen-io/mutagen/pkg/synchronization"
 	"github.com/mutagen-io/mutagen/pkg/synchronization/core"
 
+	"verif/kit/ev"
 	"verif/kit/sess"
 )
 
@@ -203,8 +205,14 @@ func judge(c *Case) (v Verdict) {
 
 	// Run one cycle of the live session.
 	if liveIndex >= 0 {
-		if err := env.Flush(ids[liveIndex], 30*time.Second); err != nil {
-			return fail("harness: the live session's cycle failed: %v", err)
+		if err := env.Flush(ids[liveIndex], 2*time.Minute); err != nil {
+			if errors.Is(err, context.DeadlineExceeded) || errors.Is(err, sess.ErrNotReady) || strings.Contains(err.Error(), "deadline") || strings.Contains(err.Error(), "not currently able") {
+				// Too slow to tell (loaded machine): no verdict for this case.
+				ev.Inconclusive("C40: the live session's cycle did not complete in time: %v", err)
+				class("inconclusive")
+				return v
+			}
+			return fail("the live session's cycle failed: %v", err)
 		}
 	}
 	if c.Restart {
